@@ -17,6 +17,12 @@ ops (all numbers decimal, names/paths hex-encoded ASCII):
   exit <pid> <tid> <t>
   comm <pid> <tid> <exec 0|1> <t> <namehex>
   mmap2 <pid> <tid> <addr> <len> <pgoff> <exec 0|1> <t> <pathhex>
+  switchin <pid> <tid> <t>                 PERF_RECORD_SWITCH / SWITCH_CPU_WIDE, switch-in
+  switchout <pid> <tid> <t> [preempt]      … with PERF_RECORD_MISC_SWITCH_OUT [| SWITCH_OUT_PREEMPT]
+  sched <pid> <tid> <t> <k|u> <ip> <chain> SAMPLE of the second event `sched:sched_switch`
+  cfg word `cs:<letters|->:<n>`: c = attr.context_switch on the main event, s = a second event named
+      sched:sched_switch exists, h = the main event is a hardware event (not time based), f = attr.freq (n is a
+      frequency in Hz, else the sample period), w = switch records are SWITCH_CPU_WIDE (no effect on the model)
 
 output: one `thread …` line per thread entry, sorted by (pid string, tid string), followed by its
 sample lines sorted by (time, frames); which fields appear depends on the projection.
@@ -39,6 +45,11 @@ def parseRec (l : String) : Option Rec :=
   | ["comm", pid, tid, ex, t, name] => some (.comm (nat! pid) (nat! tid) (strOfHex name) (ex == "1") (nat! t))
   | ["mmap2", pid, tid, addr, len, pgoff, ex, t, path] =>
     some (.mmap2 (nat! pid) (nat! tid) (nat! addr) (nat! len) (nat! pgoff) (ex == "1") (strOfHex path) (nat! t))
+  | ["switchin", pid, tid, t] => some (.switchIn (nat! pid) (nat! tid) (nat! t))
+  | ["switchout", pid, tid, t] => some (.switchOut (nat! pid) (nat! tid) (nat! t))
+  | ["switchout", pid, tid, t, "preempt"] => some (.switchOut (nat! pid) (nat! tid) (nat! t))
+  | ["sched", pid, tid, t, mode, ip, chain] =>
+    some (.sched (nat! pid) (nat! tid) (nat! t) (mode == "k") (nat! ip) (parseChain chain))
   | _ => none
 
 /-- a perf-map op: (pid, text of the line) -/
@@ -69,6 +80,24 @@ def parsePercpu (w : String) : Option Nat :=
   | ["percpu", n] => some (nat! n)
   | _ => none
 
+/-- `cs:<letters>:<n>` → (letters, n) -/
+def parseCs (w : String) : Option (String × Nat) :=
+  match w.splitOn ":" with
+  | ["cs", letters, n] => some (letters, nat! n)
+  | _ => none
+
+/-- `EventInterpretation::divine_from_attrs` (event_interpretation.rs:45-73) + converter.rs:155-159 on the
+attr the writer produces: (offCpu, interval, offWeight); `none` = the interpretation panics (frequency 0:
+division by zero at :50; period 0 without `freq`: `NoSampling`, :47) -/
+def interpretCs (letters : String) (n : Nat) : Option (Option OffCpu × Nat × Nat) :=
+  let has (c : Char) := letters.toList.contains c
+  let off := if has 'c' then some OffCpu.contextSwitches
+    else if has 's' then some OffCpu.schedSwitchAndSamples else none
+  if has 'f' then (if n = 0 then none else some (off, 1000000000 / n, 1))
+  else if n = 0 then none
+  else if has 'h' then some (off, 1000000, 0)
+  else some (off, n, 1)
+
 def parseElf (w : String) : Option (String × SvmaBias.FileInfo) :=
   match w.splitOn ":" with
   | ["elf", path, base, segs] =>
@@ -93,6 +122,18 @@ def applyFiles (files : List (String × SvmaBias.FileInfo)) (r : Rec) : Option R
       | _ => none
   | _ => some r
 
+/-- the `cs:` word of the cfg line, if any -/
+def csWord (ls : List String) : Option (String × Nat) :=
+  match ls with
+  | l :: _ => ((words l).filterMap parseCs).head?
+  | [] => none
+
+/-- the event interpretation panics before any record is read -/
+def cfgPanics (ls : List String) : Bool :=
+  match csWord ls with
+  | some (letters, n) => (interpretCs letters n).isNone
+  | none => false
+
 def parse (ls : List String) : Option (Config × List Rec) :=
   match ls with
   | l :: rest =>
@@ -100,18 +141,28 @@ def parse (ls : List String) : Option (Config × List Rec) :=
     | "cfg" :: reuse :: fold :: ref :: elfs =>
       let files := elfs.filterMap parseElf
       let ncpu := ((elfs.filterMap parsePercpu).head?).getD 0
+      let cs : Option OffCpu × Nat × Nat := match (elfs.filterMap parseCs).head? with
+        | some (letters, n) => (interpretCs letters n).getD (none, 1000000, 1)
+        | none => (none, 1000000, 1)
       let pm := groupPm (rest.filterMap parsePmOp)
       match (rest.filter (fun l => !isPmOp l)).mapM parseRec with
       | some rs =>
         match rs.mapM (applyFiles files) with
-        | some rs' => some ({ reuse := reuse == "1", fold := fold == "1", ref := nat! ref, perfMaps := pm, ncpu }, rs')
+        | some rs' => some ({ reuse := reuse == "1", fold := fold == "1", ref := nat! ref, perfMaps := pm, ncpu,
+                              offCpu := cs.1, interval := cs.2.1, offWeight := cs.2.2 }, rs')
         | none => none
       | none => none
     | _ => none
   | [] => none
 
-inductive Proj | c01 | c17 | c02 | c14 | full
+inductive Proj | c01 | c17 | c02 | c14 | full | cs
 deriving DecidableEq
+
+/-- call-chain addresses of generated `sched:sched_switch` samples lie in this range and nowhere else (harness:
+`OFF_STACK_BASE..OFF_STACK_END`): an output sample whose frames are all raw addresses in the range (or that has
+no frames) carries a stored off-CPU stack -/
+def isOffStack (fs : List Frame) : Bool :=
+  fs.all (fun f => match f with | .raw a => decide (0x0ff00000 ≤ a) && decide (a < 0x0ff10000) | _ => false)
 
 def showFrame : Frame → String
   | .lib p r => "l:" ++ hexOfStr p ++ ":" ++ toString r
@@ -142,15 +193,24 @@ def sampleLine (proj : Proj) (o : OutSample) : String :=
   | .c02 => s!"s {o.t} " ++ showFrames o.frames
   | .c14 => s!"s {o.t} " ++ showFramesC14 o.frames
   | .full => s!"s {o.t} {o.weight} {o.cpu} " ++ showFrames o.frames
+  | .cs => s!"s {o.t} {if isOffStack o.frames then "off" else "on"} {o.weight} {o.cpu / 1000}"
 
 def keyOf (o : OutSample) : String := s!"{1000000000000000000000 + o.t} " ++ showFrames o.frames
 
+/-- order of the `cs` projection: (time, off before on, weight, cpu µs) -/
+def csLe (a b : OutSample) : Bool :=
+  let k (o : OutSample) : Nat × Nat × Nat × Nat := (o.t, if isOffStack o.frames then 0 else 1, o.weight, o.cpu / 1000)
+  let x := k a; let y := k b
+  x.1 < y.1 || (x.1 == y.1 && (x.2.1 < y.2.1 || (x.2.1 == y.2.1 && (x.2.2.1 < y.2.2.1 ||
+    (x.2.2.1 == y.2.2.1 && x.2.2.2 ≤ y.2.2.2)))))
+
 def threadLines (proj : Proj) (v : View) : List String :=
-  let samples := (v.samples.mergeSort (fun a b => strLe (keyOf a) (keyOf b)))
+  let samples := if proj == .cs then v.samples.mergeSort csLe
+    else (v.samples.mergeSort (fun a b => strLe (keyOf a) (keyOf b)))
   let head := match proj with
     | .c01 => s!"thread {v.pid} {v.tid} n={v.samples.length}"
     | .c17 => s!"thread {v.pid} {v.tid} main={if v.isMain then 1 else 0} name={hexOfStr v.name} pname={hexOfStr v.processName} start={v.start} end={optNat v.end_} pstart={v.pstart} pend={optNat v.pend}"
-    | .c02 | .c14 => s!"thread {v.pid} {v.tid} n={v.samples.length}"
+    | .c02 | .c14 | .cs => s!"thread {v.pid} {v.tid} n={v.samples.length}"
     | .full => s!"thread {v.pid} {v.tid} main={if v.isMain then 1 else 0} name={hexOfStr v.name} pname={hexOfStr v.processName} start={v.start} end={optNat v.end_} pstart={v.pstart} pend={optNat v.pend} n={v.samples.length}"
   head :: (if proj == .c17 then [] else samples.map (sampleLine proj))
 
@@ -162,9 +222,14 @@ def model (proj : Proj) (ls : List String) : List String :=
   match parse ls with
   | none => ["bad-op"]
   | some (cfg, rs) =>
+    if cfgPanics ls then ["panic"] else
     if rs.any (fun r => !recSafe r) then ["panic"] else
     let s := run cfg rs
+    if s.bad then ["panic"] else
     if !perfMapsSafe s then ["panic"] else
+    -- recordings with context-switch settings are compared in the `cs` projection (time, on/off, weight, cpu
+    -- delta), whatever property drives them
+    let proj := if (csWord ls).isSome && (proj == .c01) then Proj.cs else proj
     render proj (views s ++ cpuViews s)
 
 end ConvIface
